@@ -64,7 +64,22 @@ func (ctrApp) InitState(p *channel.Params, acts []channel.Action) (channel.Alloc
 
 // stagedActions gives access to the (unexported) staged actions of an action machine.
 func stagedActions(m *channel.ActionMachine) []channel.Action {
-	f := reflect.ValueOf(m).Elem().FieldByName("stagingActions")
+	v := reflect.ValueOf(m).Elem()
+	f := v.FieldByName("stagingActions")
+	want := reflect.TypeOf([]channel.Action(nil))
+	if !f.IsValid() || f.Type() != want {
+		// renamed: the only field of the machine that holds a list of actions
+		f = reflect.Value{}
+		for i := 0; i < v.NumField(); i++ {
+			if v.Field(i).Type() == want {
+				f = v.Field(i)
+				break
+			}
+		}
+	}
+	if !f.IsValid() {
+		panic("harness: channel.ActionMachine has no field of type []channel.Action any more")
+	}
 	return *(*[]channel.Action)(unsafe.Pointer(f.UnsafeAddr()))
 }
 
